@@ -122,6 +122,14 @@ func (ex *Exec) modelled(st *State, ref string, fn *types.Func, recv *Val, args 
 		// advance inside a function under contract unless it calls unknown code)
 		ex.assumption("the injected clock does not advance within one operation (Clock.Now() reads the ghost cell clockNow(clock))")
 		return one(ex.clockNow(st, recv, r0(), sc))
+	case "github.com/jonboulle/clockwork.Clock.NewTicker", "time.NewTicker", "time.Tick":
+		if len(args) >= 1 && sc == nil {
+			d := args[len(args)-1]
+			ex.obligNamed(st, "safety", "safety:ticker-interval-positive("+ex.eng.srcLine(pos)+")", pos, "(> "+d.S+" 0)", "NewTicker panics on a non-positive interval")
+			r := ex.freshVal(r0(), "ticker")
+			st.assume("(< 0 " + r.S + ")")
+			return one(r)
+		}
 	case "time.Since":
 		ex.eng.nowN++
 		now := ex.freshVal(args[0].T, fmt.Sprintf("now%d", ex.eng.nowN))
@@ -465,7 +473,9 @@ func (ex *Exec) modelled(st *State, ref string, fn *types.Func, recv *Val, args 
 				// base 0: a leading 0 selects octal/hex/binary; underscores are permitted only with a prefix
 				plain = and(plain, or(eq("(str.len "+str+")", "1"), not(eq("(str.at "+str+" 0)", "\"0\""))))
 			} else if base != "10" {
-				break
+				// other bases: value and error unconstrained, no side effects
+				ex.modelUsed[ref]++
+				return ex.freshResults(fn, resT, "parse"), true
 			}
 			rs := ex.freshResults(fn, resT, "parse")
 			if len(rs) == 2 {
@@ -478,6 +488,14 @@ func (ex *Exec) modelled(st *State, ref string, fn *types.Func, recv *Val, args 
 				ex.modelUsed[ref]++
 				return rs, true
 			}
+		}
+	case "math/rand.Intn", "math/rand.Int63n", "math/rand.Int31n", "math/rand.(*Rand).Intn", "math/rand/v2.IntN":
+		if len(args) >= 1 && sc == nil {
+			n := args[len(args)-1]
+			ex.obligNamed(st, "safety", "safety:rand-arg-positive("+ex.eng.srcLine(pos)+")", pos, "(> "+n.S+" 0)", "rand.Intn panics unless its argument is positive")
+			r := ex.freshVal(r0(), "rand")
+			st.assume("(and (<= 0 " + r.S + ") (< " + r.S + " " + n.S + "))")
+			return one(r)
 		}
 	case "os.Exit":
 		st.assume("false")
